@@ -662,6 +662,7 @@ package avro
 //@   after 5 assert len(buf) == L + 17 + uvlen(zz(int64(sl))) + sl + 11
 //@   after 6 assert len(buf) == tot - 17
 //@   after 7 assert len(buf) == tot - 16 && buf[tot-17] == 0
+//@   after 7 assert len(buf) > L
 
 //@ func (*FileWriter).WriteHeader
 //@   requires f != nil && w != nil && len(f.schema) < 1<<40 && len(f.compression) < 1<<40
@@ -897,6 +898,9 @@ package avro
 //@   loop 2 uses items_unfold(rc, b0, r.i, count)
 //@   loop 2 decreases count
 
+// sliceType = reflect.TypeOf(sliceHeader{}) is set by package initialisation: a non-nil type of 24 bytes
+//@ global sliceType != nil && data(sliceType) != nil && rtypesz(data(sliceType)) == 24
+
 //@ func (*arrayCodec).New
 //@   implements Codec.New
 //@   let i0 := r.i, b0 := r.buf
@@ -978,3 +982,24 @@ package avro
 //@   loop 1 invariant -1 <= rangeindex && rangeindex < n0 && len(rb.types) == n0 && wfBank(rb) && rb.types == old(rb.types)
 //@   loop 1 invariant forall j int :: 0 <= j && j < n0 ==> (j <= rangeindex ==> rb.types[j].len == 0) && rb.types[j].ptyp == old(rb.types[j].ptyp) && rb.types[j].array == old(rb.types[j].array) && rb.types[j].cap == old(rb.types[j].cap) && rb.types[j].size == old(rb.types[j].size)
 //@   loop 1 decreases n0 - rangeindex
+
+// Avro array encoding produced: empty -> count 0; otherwise one block: count L, the L items in order, count 0.
+//@ func (*arrayCodec).Write
+//@   implements Codec.Write
+//@   let b0 := w.buf, L := hL(p), D := hD(p), sz := isz(rc)
+//@   requires w != nil && wfc(asiface(rc)) && wfval(asiface(rc), p)
+//@   ensures [C02,C13] L == 0 ==> tlen() == 1 && tkind(0) == evV && ta(0) == 0
+//@   ensures [C02,C13] L > 0 ==> tlen() == L + 2 && tkind(0) == evV && ta(0) == uint64(L) && tkind(L + 1) == evV && ta(L + 1) == 0 \
+//@        && (forall k int :: 0 <= k && k < L ==> tkind(k + 1) == evCW && ta(k + 1) == tag(rc.itemCodec) && tb(k + 1) == uint64(data(rc.itemCodec)) && tc(k + 1) == D + uint64(k * sz))
+//@   ensures len(b0) <= len(w.buf) && (forall k int :: 0 <= k && k < len(b0) ==> w.buf[k] == old(b0[k])) && (base(w.buf) == old(base(w.buf)) || (newobj(w.buf) && !cowned(w.buf))) && off(w.buf) == old(off(w.buf))
+//@   modifies w.buf, BH[w.buf]
+//@   loop 1 invariant 0 <= i && i <= L && L > 0 && hL(p) == L && hD(p) == D
+//@   loop 1 invariant tlen() == i + 1 && tkind(0) == evV && ta(0) == uint64(L) && (forall k int :: 0 <= k && k < i ==> tkind(k + 1) == evCW && ta(k + 1) == tag(rc.itemCodec) && tb(k + 1) == uint64(data(rc.itemCodec)) && tc(k + 1) == D + uint64(k * sz))
+//@   loop 1 invariant w != nil && len(b0) <= len(w.buf) && (forall k int :: 0 <= k && k < len(b0) ==> w.buf[k] == old(b0[k])) && (base(w.buf) == old(base(w.buf)) || (newobj(w.buf) && !cowned(w.buf))) && off(w.buf) == old(off(w.buf)) && bhframe(b0)
+//@   loop 1 decreases L - i
+
+//@ func (*arrayCodec).Omit
+//@   implements Codec.Omit
+//@   requires rc != nil && rdable(p, 24)
+//@   ensures res == (rc.omitEmpty && hL(p) == 0)
+//@   pure
